@@ -14,7 +14,7 @@ from vlib.nlp import NLP, close, time_like_vars, DMa
 
 ID = "C08"
 LEVEL = "exploration"
-BUDGET = {"quick": (8, 45), "thorough": (16, 700)}
+BUDGET = {"quick": (8, 45), "thorough": (16, 1500)}
 RFIT = 8
 RULE = ("Generated OCP (SingleShooting/MultipleShooting with rk|expl_euler, DirectCollocation degree 1..5 radau|legendre; N 1..4, M 1..3, uniform and non-uniform grids, fixed/free horizon), a refine factor "
         "1..7 and query times. A dynamically feasible decision vector is obtained by Newton iterations on the NLP's own dynamic equality rows from random initial state/controls. Oracles: every r-th refined "
